@@ -178,6 +178,51 @@ static int matrix_addrow (
   reset_rowindex (
 	EGLPNUM_TYPENAME_lpinfo * lp);
 
+/* argument checks shared by the add routines, made before anything is
+ * modified: every index inside [0,limit), the name (if given) not in use */
+static int check_new_line (
+	ILLsymboltab * tab,
+	const char *name,
+	int cnt,
+	const int *ind,
+	int limit)
+{
+	int i;
+
+	for (i = 0; i < cnt; i++)
+	{
+		if (ind[i] < 0 || ind[i] >= limit)
+		{
+			QSlog("index %d out of range [0,%d)", ind[i], limit);
+			return 1;
+		}
+	}
+	if (name && tab->tablesize > 0 && ILLsymboltab_contains (tab, name))
+	{
+		QSlog("name %s is already in use", name);
+		return 1;
+	}
+	return 0;
+}
+
+static int check_new_names (
+	int num,
+	const char **names)
+{
+	int i, j;
+
+	if (names == NULL)
+		return 0;
+	for (i = 0; i < num; i++)
+		for (j = 0; names[i] && j < i; j++)
+			if (names[j] && strcmp (names[i], names[j]) == 0)
+			{
+				QSlog("name %s given twice", names[i]);
+				return 1;
+			}
+	return 0;
+}
+
 int EGLPNUM_TYPENAME_ILLlib_optimize (
 	EGLPNUM_TYPENAME_lpinfo * lp,
 	EGLPNUM_TYPENAME_ILLlp_basis * B,
@@ -991,6 +1036,22 @@ int EGLPNUM_TYPENAME_ILLlib_addrows (
 
 	EGLPNUM_TYPENAME_EGlpNumInitVar (rng);
 
+	/* all or nothing: refuse the call before the first row is added */
+	rval = check_new_names (num, names);
+	CHECKRVALG (rval, CLEANUP);
+	for (i = 0; i < num; i++)
+	{
+		if (sense[i] != 'L' && sense[i] != 'G' && sense[i] != 'E' && sense[i] != 'R')
+		{
+			QSlog("illegal sense %c in EGLPNUM_TYPENAME_ILLlib_addrows", sense[i]);
+			rval = 1;
+			ILL_CLEANUP;
+		}
+		rval = check_new_line (&lp->O->rowtab, names ? names[i] : 0, rmatcnt[i],
+													 rmatind + rmatbeg[i], lp->O->nstruct);
+		CHECKRVALG (rval, CLEANUP);
+	}
+
 	if (B == 0 || B->rownorms == 0)
 	{
 		if (factorok)
@@ -1199,6 +1260,15 @@ int EGLPNUM_TYPENAME_ILLlib_addrow (
 
 	qslp = lp->O;
 	A = &qslp->A;
+
+	if (sense != 'L' && sense != 'G' && sense != 'E' && sense != 'R')
+	{
+		QSlog("illegal sense %c in EGLPNUM_TYPENAME_ILLlib_addrow", sense);
+		rval = 1;
+		ILL_CLEANUP;
+	}
+	rval = check_new_line (&qslp->rowtab, name, cnt, ind, qslp->nstruct);
+	CHECKRVALG (rval, CLEANUP);
 
 	if (qslp->rA)
 	{															/* After an addrow call, needs to be updated */
@@ -2135,6 +2205,16 @@ int EGLPNUM_TYPENAME_ILLlib_addcols (
 	int rval = 0;
 	int i;
 
+	/* all or nothing: refuse the call before the first column is added */
+	rval = check_new_names (num, names);
+	CHECKRVALG (rval, CLEANUP);
+	for (i = 0; i < num; i++)
+	{
+		rval = check_new_line (&lp->O->coltab, names ? names[i] : 0, cmatcnt[i],
+													 cmatind + cmatbeg[i], lp->O->nrows);
+		CHECKRVALG (rval, CLEANUP);
+	}
+
 	for (i = 0; i < num; i++)
 	{
 		if (names)
@@ -2190,6 +2270,9 @@ int EGLPNUM_TYPENAME_ILLlib_addcol (
 	qslp = lp->O;
 	A = &qslp->A;
 	ncols = qslp->ncols;
+
+	rval = check_new_line (&qslp->coltab, name, cnt, ind, qslp->nrows);
+	CHECKRVALG (rval, CLEANUP);
 
 	if (qslp->rA)
 	{															/* After an addcol call, needs to be updated */
